@@ -25,6 +25,7 @@ class Hang(BaseException):
 
 
 CPU_BUDGET = 3.0      # seconds of process CPU time per step
+STEP_WALL = 2.0       # seconds the event loop may sit idle while the server owes an answer
 WALL_BUDGET = 30      # seconds wall clock per step (SIGALRM)
 
 
@@ -97,6 +98,28 @@ def sync_literal_length(chunk: bytes) -> int | None:
         return None
 
 
+async def send_step(conn: Conn, data: bytes) -> tuple[bytes, bool]:
+    """conn.send with stall detection: (output, stalled).  The server runs in
+    this event loop; when the loop has been idle for STEP_WALL seconds and the
+    connection task neither reads input nor has finished, it is waiting for
+    something that is not the client (a lock, an event): it will never answer."""
+    task = asyncio.ensure_future(conn.send(data))
+    done, _pending = await asyncio.wait({task}, timeout=STEP_WALL)
+    if not done:
+        for _ in range(50):
+            await asyncio.sleep(0)
+            if task.done():
+                break
+    if task.done():
+        return task.result(), False
+    task.cancel()
+    try:
+        await task
+    except BaseException:  # noqa
+        pass
+    return conn.take(), True
+
+
 _RESP_LINE = re.compile(rb'([^\r\n]*)\r\n')
 _LITERAL = re.compile(rb'\{(\d+)\}$')
 
@@ -132,7 +155,7 @@ class Outcome:
 
     __slots__ = ('out', 'conts', 'tagged', 'closed', 'bye', 'serverbug', 'exc', 'hang',
                  'sent', 'unsent', 'pending', 'other_ok', 'wall', 'cont_texts', 'truncated', 'units',
-                 'last_silent', 'site')
+                 'last_silent', 'site', 'stalled')
 
     def __init__(self) -> None:
         self.out = b''
@@ -150,6 +173,7 @@ class Outcome:
         self.units: list[bytes] = []   # the units sent, in order
         self.last_silent = False    # the last unit sent drew no output at all
         self.site = ''              # last pymap frame of the escaped exception
+        self.stalled = False        # the server owes an answer and waits for something else
         self.pending = False        # server still waits for input of this command
         self.other_ok: bool | None = None
         self.wall = 0.0
@@ -165,7 +189,7 @@ class Outcome:
                 'closed': self.closed, 'bye': self.bye, 'serverbug': self.serverbug,
                 'exc': self.exc, 'hang': self.hang, 'sent': self.sent, 'unsent': self.unsent,
                 'pending': self.pending, 'other_ok': self.other_ok,
-                'truncated': self.truncated, 'site': self.site,
+                'truncated': self.truncated, 'site': self.site, 'stalled': self.stalled,
                 'units': [u[:200].decode('latin-1') for u in self.units]}
 
 
@@ -222,7 +246,15 @@ async def feed(conn: Conn, data: bytes, other: Conn | None = None, probe_other: 
                     scan(o, o.out)
                 break
             with Watch():
-                chunk = await conn.send(data[pos:end])
+                chunk, stalled = await send_step(conn, data[pos:end])
+            if stalled:
+                o.stalled = True
+                o.out += chunk
+                o.units.append(data[pos:end])
+                o.sent += 1
+                pos = end
+                scan(o, chunk)
+                break
             sent = data[pos:end]
             pos = end
             o.sent += 1
@@ -257,9 +289,9 @@ async def feed(conn: Conn, data: bytes, other: Conn | None = None, probe_other: 
         frames = [f for f in traceback.extract_tb(conn.exc.__traceback__) if '/pymap/' in f.filename]
         if frames:
             o.site = frames[-1].filename.split('/pymap/')[-1] + ':' + frames[-1].name
-    if o.tagged is None and not o.bye and not o.closed and not o.hang:
+    if o.tagged is None and not o.bye and not o.closed and not o.hang and not o.stalled:
         o.pending = True
-    if other is not None and o.other_ok is None and (probe_other or o.hang or o.exc):
+    if other is not None and o.other_ok is None and not o.stalled and (probe_other or o.hang or o.exc):
         o.other_ok = await probe(other)
     o.wall = time.time() - t0
     return o
@@ -268,15 +300,21 @@ async def feed(conn: Conn, data: bytes, other: Conn | None = None, probe_other: 
 _probe_n = [0]
 
 
-async def probe(other: Conn) -> bool:
+async def probe(other: Conn, mutate: bool = True) -> bool:
+    """A second connection of the same account is still served: NOOP, and a
+    command that changes the mailbox set (needs its write lock)."""
     _probe_n[0] += 1
     tag = b'pr%d' % _probe_n[0]
     try:
         with Watch():
-            r = await other.send(tag + b' NOOP\r\n')
+            r, stalled = await send_step(other, tag + b' NOOP\r\n')
+            ok = not stalled and (tag + b' OK') in r and not other.closed
+            if ok and mutate:
+                r, stalled = await send_step(other, tag + b' SUBSCRIBE INBOX\r\n')
+                ok = not stalled and (tag + b' OK') in r and not other.closed
     except Hang:
         return False
-    return (tag + b' OK') in r and not other.closed
+    return ok
 
 
 STATES = ('na', 'auth', 'sel')
@@ -320,32 +358,41 @@ class Pool:
         self.env_cases = env_cases
         self.used = 0
         self.fresh = 0
+        self.history: list[tuple[str, bytes]] = []   # (state, bytes sent) since the environment started
+        self.dead = False
 
     async def _new_env(self) -> None:
         self.env = await DictEnv().start()
+        self.history = []
+        self.dead = False
         self.conns = {}
         self.other = keep(await self.env.login())
         self.used = 0
 
     async def get(self, state: str) -> Conn:
-        if self.env is None or self.used >= self.env_cases or self.other is None or self.other.closed:
+        if self.env is None or self.dead or self.used >= self.env_cases or self.other is None \
+                or self.other.closed:
             await self._new_env()
         self.used += 1
         c = self.conns.get(state)
         if c is not None and not c.closed:
             # reset the consecutive-BAD counter and re-establish the state
-            r = await c.send(b'zz NOOP\r\n' if state != 'sel' else b'zz SELECT INBOX\r\n')
-            if b'zz OK' in r and not c.closed:
+            resync = b'zz NOOP\r\n' if state != 'sel' else b'zz SELECT INBOX\r\n'
+            self.history.append((state, resync))
+            r, stalled = await send_step(c, resync)
+            if b'zz OK' in r and not c.closed and not stalled:
                 return c
         self.fresh += 1
         assert self.env is not None
+        self.history.append((state, b'<connect>'))
         if state == 'na':
             c = await self.env.connect()
         else:
             c = await self.env.login()
             if state == 'sel':
-                r = await c.send(b'zz SELECT INBOX\r\n')
-                assert b'zz OK' in r, r
+                self.history.append((state, b'zz SELECT INBOX\r\n'))
+                r, stalled = await send_step(c, b'zz SELECT INBOX\r\n')
+                assert b'zz OK' in r and not stalled, r
         self.conns[state] = keep(c)
         return c
 
